@@ -58,12 +58,13 @@ func (r *RelayAddressGeneratorStatic) AllocatePacketConn(
 	}
 
 	// Replace actual listening IP with the user requested one of RelayAddressGeneratorStatic
-	relayAddr, ok := conn.LocalAddr().(*net.UDPAddr)
+	localAddr, ok := conn.LocalAddr().(*net.UDPAddr)
 	if !ok {
 		return nil, nil, errNilConn
 	}
 
-	relayAddr.IP = r.RelayAddress
+	// The socket owns the address it reports: advertise a copy of it.
+	relayAddr := &net.UDPAddr{IP: r.RelayAddress, Port: localAddr.Port, Zone: localAddr.Zone}
 
 	return conn, relayAddr, nil
 }
@@ -95,14 +96,15 @@ func (r *RelayAddressGeneratorStatic) AllocateListener(conf AllocateListenerConf
 	}
 
 	// Replace actual listening IP with the user requested one of RelayAddressGeneratorStatic
-	relayAddr, ok := ln.Addr().(*net.TCPAddr)
+	localAddr, ok := ln.Addr().(*net.TCPAddr)
 	if !ok {
 		_ = ln.Close()
 
 		return nil, nil, errNilConn
 	}
 
-	relayAddr.IP = r.RelayAddress
+	// The socket owns the address it reports: advertise a copy of it.
+	relayAddr := &net.TCPAddr{IP: r.RelayAddress, Port: localAddr.Port, Zone: localAddr.Zone}
 
 	return ln, relayAddr, nil
 }
